@@ -60,7 +60,12 @@ def ops_text(ops):
 
 
 def query_pkt(idv, qs):
-    return {"id": idv, "opcode": 0, "rcode": 0, "flags": 0, "opt": None, "qs": qs, "ans": [], "nss": [], "adds": []}
+    # "every query": the rest of the header varies with the id (any named opcode and response code, any flags but QR, EDNS data)
+    opcode = dns.NAMED_OPCODES[(idv // 4) % len(dns.NAMED_OPCODES)] if idv % 4 == 1 else 0
+    rcode = (idv // 5) % 11 if idv % 5 == 2 else 0
+    flags = sum(1 << b for i, b in enumerate(x for x in dns.FLAGBITS if x != 15) if (idv >> i) & 1) if idv % 3 == 0 else 0
+    opt = {"udp": 1232, "version": 0, "codes": []} if idv % 7 == 3 else None
+    return {"id": idv, "opcode": opcode, "rcode": rcode, "flags": flags, "opt": opt, "qs": qs, "ans": [], "nss": [], "adds": []}
 
 
 def cases(rng, tier):
